@@ -31,13 +31,25 @@ def run(tier, wd):
     p = g.STD_PROG
     specs = g.family(p, 25 if tier == "quick" else 250, core.seed(), want=want)
     per_spec = 40 if tier == "quick" else 250
+    # alternatives that join on a repetition or on further options: the search has to come back to the same state with different
+    # remaining arguments of the same length (valued options are then often spelled as two tokens throughout)
+    A_, B_, O_, E_ = g.Opt("-a"), g.Opt("-b"), g.Opt("-o"), g.Opt("-e")
+    for e_ in [g.Seq(g.Alt(E_, O_), g.Rep(g.Optional(E_))), g.Seq(g.Alt(B_, A_), O_, g.Rep(B_)), g.Seq(g.Alt(A_, B_), E_, g.Optional(A_), g.Optional(O_)),
+               g.Seq(g.Alt(O_, E_), g.Rep(g.Optional(g.Alt(O_, E_))))]:
+        st = g.render(p, e_)
+        if st not in [x["str"] for x in specs]:
+            specs.append({"ast": e_, "str": st, "extra": True})
     groups, seen = [], set()
     for si, s in enumerate(specs):
         tries = 0
         n = 0
-        while n < per_spec and tries < per_spec * 8:
+        while n < (per_spec * 3 if s.get("extra") else per_spec) and tries < per_spec * 24:
             tries += 1
             items = g.sample_items(p, s["ast"], rnd)
+            if s.get("extra") and rnd.random() < 0.5:
+                # more occurrences of the repeated options
+                k = rnd.choice([it for it in items if it[0] == "occ"])
+                items = items + [(k[0], k[1], rnd.choice(["1", "2", "3", "v"]) if k[2] is not None else None) for _ in range(rnd.randint(1, 2))]
             if rnd.random() < 0.5:
                 items = g.shuffle_runs(items, rnd)
             if rnd.random() < 0.2:
@@ -51,12 +63,13 @@ def run(tier, wd):
             swapped = list(items)
             swapped[i], swapped[i + 1] = swapped[i + 1], swapped[i]
             # same spelling of every occurrence on both sides; sometimes the swapped pair shares a folded token
-            choice = [plain(p, it, rnd) if it[0] == "occ" else None for it in items]
+            sep = s.get("extra") and rnd.random() < 0.6
+            choice = [(([g.names_of(p, it[1])[0], it[2]] if it[2] is not None else [g.names_of(p, it[1])[0]]) if sep else plain(p, it, rnd)) if it[0] == "occ" else None for it in items]
             a = render(p, items, choice)
             ch2 = list(choice)
             ch2[i], ch2[i + 1] = ch2[i + 1], ch2[i]
             b = render(p, swapped, ch2)
-            if rnd.random() < 0.4:
+            if rnd.random() < 0.4 and not sep:
                 fa = [l for l in G.spellings(p, items[i:i + 2], cap=8, rnd=rnd)]
                 fb = [l for l in G.spellings(p, swapped[i:i + 2], cap=8, rnd=rnd)]
                 pre = render(p, items[:i], choice[:i])
